@@ -25,7 +25,10 @@ def gen_table(rng, ncols=None, nrows=None):
             name += rng.choice('xyz2')
         used.add(name.lower())
         col = F.gen_column(rng, kind, nrows, name=name)
-        if kind == 'str_obj' and rng.random() < 0.5:
+        if kind == 'str_obj' and nrows and rng.random() < 0.12:
+            base = S.lookalikes(rng)
+            col['values'] = [None if v is None else base[i % len(base)] for i, v in enumerate(col['values'])]
+        elif kind == 'str_obj' and rng.random() < 0.5:
             pool = rng.sample(HOSTILE_TEXT, rng.randint(1, len(HOSTILE_TEXT)))
             col['values'] = [None if v is None else rng.choice(pool) for v in col['values']]
         if kind == 'str_obj':
